@@ -637,11 +637,24 @@ type reverseSegmentScanner struct {
 // newReverseSegmentScanner creates a scanner that iterates from the given
 // offset backwards.
 func newReverseSegmentScanner(segment *segment, startOffset int64) *reverseSegmentScanner {
-	// Convert log offset to index entry offset
-	entryOffset := startOffset - segment.BaseOffset
+	// Find the index slot of the last entry whose offset is less than or
+	// equal to the start offset. Offsets within a segment are not contiguous
+	// once it has been compacted, so the slot cannot be derived from the
+	// offset. If there is no such entry the slot is -1 and the first Scan
+	// returns io.EOF.
+	var (
+		e = &entry{}
+		n = int(segment.Index.CountEntries())
+	)
+	slot := sort.Search(n, func(i int) bool {
+		if err := segment.Index.ReadEntryAtLogOffset(e, int64(i)); err != nil {
+			return true
+		}
+		return e.Offset > startOffset
+	}) - 1
 	return &reverseSegmentScanner{
 		s:   segment,
-		ris: newReverseIndexScanner(segment.Index, entryOffset),
+		ris: newReverseIndexScanner(segment.Index, int64(slot)),
 	}
 }
 
